@@ -119,7 +119,7 @@ package immutable
 //@   ghostparam h fp.Hashable[K]
 //@   option summary
 //@   option assumerec=mergeIntoNode
-//@   option timeout=480
+//@   option timeout=240
 //@   requires node != nil && node.keyHashValue() != keyHash && shift <= 30 && shift%5 == 0
 //@   requires (node.keyHashValue() >> shift) != (keyHash >> shift)
 //@   requires veriflaws.HashLaws(h) && leafWF(node, h) && keyHash == h.Hash(key) && (forall s uint :: Rec_nodeWF(mapNode[K, V](node), s, h))
